@@ -46,6 +46,9 @@ pub struct Spec {
     /// step names of the parent layout contain dots (`s0.rel-1.2`)
     #[serde(default)]
     pub dotted: bool,
+    /// verification instant injected through the clock hook (unix seconds); None: the wall clock
+    #[serde(default)]
+    pub clock: Option<i64>,
 }
 
 fn rename_top(w: &mut World, suffix: &str) {
@@ -94,7 +97,7 @@ fn sub_indices(w: &World) -> Vec<usize> {
     w.links.iter().enumerate().filter(|(_, f)| matches!(f.body, Body::Sub { .. })).map(|(i, _)| i).collect()
 }
 
-fn apply_inner_fault(parent: &mut World, li: usize, fault: &InnerFault, deeper: bool) -> bool {
+fn apply_inner_fault(parent: &mut World, li: usize, fault: &InnerFault, deeper: bool, now: i64) -> bool {
     let filed = parent.links[li].filed_under.clone();
     let step_name = parent.links[li].step.clone();
     let parent_funcs = parent.layout.keys.clone();
@@ -102,7 +105,7 @@ fn apply_inner_fault(parent: &mut World, li: usize, fault: &InnerFault, deeper: 
     if deeper {
         let inner_subs = sub_indices(world);
         if let Some(i2) = inner_subs.first() {
-            return apply_inner_fault(world, *i2, fault, false);
+            return apply_inner_fault(world, *i2, fault, false, now);
         }
     }
     let others: Vec<KeySpec> = parent_funcs.iter().filter(|k| material(k) != material(&filed)).cloned().collect();
@@ -112,7 +115,7 @@ fn apply_inner_fault(parent: &mut World, li: usize, fault: &InnerFault, deeper: 
         InnerFault::WrongSigner(n) => world.sigs = vec![SigEntry::good(&pick(*n))],
         InnerFault::Unsigned => world.sigs.clear(),
         InnerFault::ExtraSigner(n) => world.sigs.push(SigEntry::good(&pick(*n))),
-        InnerFault::Expired => world.layout.expires = 1_000_000_000,
+        InnerFault::Expired => world.layout.expires = now - 1 - (li as i64) * 86_400,
         InnerFault::MisplacedInParent => *placement = Placement::ParentDir,
         InnerFault::MisplacedOtherKeyDir(n) => *placement = Placement::OtherKeyDir(pick(*n)),
         InnerFault::MisplacedStrippedExtension => {
@@ -200,7 +203,7 @@ impl Property for C15 {
     fn rule() -> String {
         "Generated: two-level (thorough also three-level) delegation trees: a parent step authorises K (or two functionaries with threshold 2, each filing a copy) and its evidence file is a layout \
          signed by K; inner layouts have 0-2 steps with their own functionaries and links in <step>.<keyid8>/; one fault is injected into one \
-         delegated step: inner layout signed by another functionary / by nobody / by K plus others; inner expiry in the past; inner links \
+         delegated step: inner layout signed by another functionary / by nobody / by K plus others; inner expiry one second (or whole days) before the verification instant, which is the wall clock or an instant between 2008 and 2093 injected through the clock hook and different from case to case; inner links \
          placed in the parent directory, under another key's directory or (step names with dots) under the name with its last extension stripped; an inner link removed, tampered, replaced by an unauthorised \
          signer's, or with a broken signature; an inner rule that fails; the inner layout edited after signing; optionally the parent's next \
          step is tied to the delegated step's summary with MATCH ... FROM rules, and a step name is requested. Oracle: parent Ok only if the \
@@ -220,8 +223,9 @@ impl Property for C15 {
     fn strategy(tier: Tier) -> BoxedStrategy<Spec> {
         let depth = tier.pick(1usize, 2usize);
         let cfg = Cfg { min_steps: 1, max_steps: 3, max_owners: 1, sub_depth: depth, multi_sub: true, max_threshold: 2, ..Cfg::basic() };
-        (valid_world(cfg), fault_strategy(), any::<u8>(), proptest::option::of("[a-z]{1,6}"), any::<bool>(), prop_oneof![3 => Just(false), 1 => Just(true)], any::<bool>())
-            .prop_filter_map("has a delegated step", |((mut world, owners), fault, which, step_name, match_link, deeper, dotted)| {
+        (valid_world(cfg), fault_strategy(), any::<u8>(), proptest::option::of("[a-z]{1,6}"), any::<bool>(), prop_oneof![3 => Just(false), 1 => Just(true)], any::<bool>(),
+            prop_oneof![1 => Just(None), 2 => (1_200_000_000i64..3_900_000_000).prop_map(Some)])
+            .prop_filter_map("has a delegated step", |((mut world, owners), fault, which, step_name, match_link, deeper, dotted, clock)| {
                 let dotted = dotted || fault == InnerFault::MisplacedStrippedExtension;
                 if dotted {
                     rename_top(&mut world, ".rel-1.2");
@@ -234,13 +238,17 @@ impl Property for C15 {
                 if sub_indices(&world).is_empty() {
                     return None;
                 }
-                Some(Spec { world, owners, fault, which, step_name, match_link, deeper, dotted })
+                Some(Spec { world, owners, fault, which, step_name, match_link, deeper, dotted, clock })
             })
             .boxed()
     }
     fn check(spec: &Spec, env: &mut Env) -> Outcome {
         let mut o = Outcome::new();
-        let now = now_secs();
+        let now = spec.clock.unwrap_or_else(now_secs);
+        let set_clock = |on: bool| {
+            in_toto::verif_hooks::set_clock(if on { spec.clock.map(|c| chrono::DateTime::from_timestamp(c, 0).expect("instant")) } else { None });
+        };
+        o.class(if spec.clock.is_some() { "clock:injected" } else { "clock:wall" });
         let mut base = spec.world.clone();
         // optionally tie the step after each delegated step to the delegated step's summary
         if spec.match_link {
@@ -275,13 +283,26 @@ impl Property for C15 {
         let mut w = base.clone();
         let subs = sub_indices(&w);
         let li = subs[spec.which as usize % subs.len()];
-        let applied = apply_inner_fault(&mut w, li, &spec.fault, spec.deeper);
+        let applied = apply_inner_fault(&mut w, li, &spec.fault, spec.deeper, now);
         let fault_name = format!("{:?}", spec.fault).split(|c| c == '(' || c == ' ').next().unwrap_or("").to_string();
         o.class(format!("fault:{}", if applied { fault_name.as_str() } else { "not-applicable" }));
         let dir = env.fresh_dir("c15");
         let info = write_world(&w, &dir);
         let j = judge(&w, &info, &spec.owners, now, true);
+        if spec.fault == InnerFault::Expired && spec.clock.is_some() {
+            // history: an earlier verification of the same layout, at an instant at which the sub-layout
+            // had not expired yet, fails for lack of link files
+            let early = now - 2 - (li as i64 + 1) * 86_400;
+            in_toto::verif_hooks::set_clock(chrono::DateTime::from_timestamp(early, 0));
+            let edir = env.fresh_dir("c15e");
+            let _ = std::fs::create_dir_all(&edir);
+            let _ = run_verify(&info, &own_ids(&spec.owners), &edir, None);
+            let _ = std::fs::remove_dir_all(&edir);
+            o.class("expired-after-an-earlier-failed-call");
+        }
+        set_clock(true);
         let r = run_verify(&info, &own_ids(&spec.owners), &dir, spec.step_name.as_deref());
+        set_clock(false);
         let _ = std::fs::remove_dir_all(&dir);
         let Some(r) = r else { return o };
         o.class(if r.is_ok() { "verdict:ok" } else { "verdict:err" });
@@ -310,7 +331,9 @@ impl Property for C15 {
                     "Err");
             }
             let cdir = env.fresh_dir("c15c");
+            set_clock(true);
             let (cr, _, _) = run_world(&base, &spec.owners, &cdir, now);
+            set_clock(false);
             let _ = std::fs::remove_dir_all(&cdir);
             o.evals = 2;
             if matches!(cr, Some(Ok(_))) {
